@@ -100,4 +100,131 @@ theorem parse_window (i : Nat) (w rest : Bytes) (h20 : 20 ≤ w.length) (hl : 16
             rw [List.drop_append_of_le_length (by omega), List.take_append_of_le_length (by simp; omega)]
           rw [t4, t5, t1, t2, t3]
 
+/-- the length field of a (candidate) serial-framed message at the start of `w` -/
+def lenOfSerial (w : Bytes) : Nat :=
+  match w.drop 6 with
+  | l1 :: l2 :: _ => l1.toNat * 256 + l2.toNat
+  | _ => 0
+
+/-- window lemma, serial framing: a window that holds the announced message plus four bytes decides like the whole input -/
+theorem parse_window_serial (i : Nat) (w rest : Bytes) (h8 : 8 ≤ w.length) (hl : 4 + lenOfSerial w + 4 ≤ w.length) :
+    parseSerial i (w ++ rest) = parseSerial i w := by
+  have hp : isPat serialPat (w ++ rest) = isPat serialPat w := by
+    have := isPat_window serialPat w rest 0 (by omega); simpa using this
+  have hd4 : (w ++ rest).drop 4 = w.drop 4 ++ rest := List.drop_append_of_le_length (by omega)
+  unfold parseSerial
+  have n1 : ¬ (w ++ rest).length < 8 := by simp; omega
+  have n2 : ¬ w.length < 8 := by omega
+  simp only [n1, n2, if_false, hp]
+  split
+  · rfl
+  · match hw : w.drop 4 with
+    | [] => have : (w.drop 4).length = 0 := by rw [hw]; rfl
+            simp at this; omega
+    | [_] => have : (w.drop 4).length = 1 := by rw [hw]; rfl
+             simp at this; omega
+    | [_, _] => have : (w.drop 4).length = 2 := by rw [hw]; rfl
+                simp at this; omega
+    | [_, _, _] => have : (w.drop 4).length = 3 := by rw [hw]; rfl
+                   simp at this; omega
+    | htyp :: mcnt :: l1 :: l2 :: tl =>
+      have hlen : lenOfSerial w = l1.toNat * 256 + l2.toNat := by
+        unfold lenOfSerial
+        have : w.drop 6 = (w.drop 4).drop 2 := by simp
+        rw [this, hw]
+        rfl
+      rw [hd4, hw]
+      simp only [List.cons_append]
+      rw [hlen] at hl
+      generalize hL : l1.toNat * 256 + l2.toNat = L at *
+      split
+      · rfl
+      · rename_i hsz
+        have r1 : ¬ (w ++ rest).length - 4 < L := by simp; omega
+        have r2 : ¬ w.length - 4 < L := by omega
+        simp only [r1, r2, if_false]
+        have g1 : decide ((w ++ rest).length - (4 + L) ≥ 4) = true := by simp; omega
+        have g2 : decide (w.length - (4 + L) ≥ 4) = true := by simp; omega
+        have g3 : isPat serialPat ((w ++ rest).drop (4 + L)) = isPat serialPat (w.drop (4 + L)) :=
+          isPat_window serialPat w rest (4 + L) (by omega)
+        have g4 : markerInside serialPat (w ++ rest) (4 + L) = markerInside serialPat w (4 + L) := by
+          unfold markerInside
+          rw [List.drop_append_of_le_length (by omega)]
+          exact markerScan_window serialPat _ _ _ (by simp; omega)
+        simp only [g1, g2, g3, g4]
+        split
+        · rfl
+        · generalize hH : ({ htyp := htyp, mcnt := mcnt, len := L } : StdHdr) = H at *
+          have hHlen : H.len = L := by rw [← hH]
+          have hs : H.size ≤ L := by rw [← hHlen]; omega
+          have t4 : ((w ++ rest).drop (4 + H.size)).take (L - H.size) = (w.drop (4 + H.size)).take (L - H.size) := by
+            rw [List.drop_append_of_le_length (by omega), List.take_append_of_le_length (by simp; omega)]
+          have t5 : ((w ++ rest).drop 8).take (H.size - 4) = (w.drop 8).take (H.size - 4) := by
+            have : 4 ≤ H.size := by unfold StdHdr.size; omega
+            rw [List.drop_append_of_le_length (by omega), List.take_append_of_le_length (by simp; omega)]
+          rw [t4, t5]
+
+theorem lenOf_le (w : Bytes) : lenOf w ≤ 65535 := by
+  unfold lenOf
+  split
+  · rename_i l1 l2 _ _
+    have := l1.toNat_lt; have := l2.toNat_lt; omega
+  · omega
+
+theorem lenOfSerial_le (w : Bytes) : lenOfSerial w ≤ 65535 := by
+  unfold lenOfSerial
+  split
+  · rename_i l1 l2 _ _
+    have := l1.toNat_lt; have := l2.toNat_lt; omega
+  · omega
+
+/-- what the parsers consume lies inside the input; an `invalid` verdict needs at least a minimal message -/
+theorem parseStorage_ok_le (i : Nat) (d : Bytes) (n : Nat) (m : Msg) (h : parseStorage i d = .ok (n, m)) : n ≤ d.length ∧ 1 ≤ n := by
+  unfold parseStorage at h
+  split at h
+  · cases h
+  · split at h
+    · cases h
+    · split at h
+      · simp only [] at h
+        split at h
+        · cases h
+        · split at h
+          · cases h
+          · split at h
+            · cases h
+            · injection h with h; injection h with h1 h2
+              subst h1; omega
+      · cases h
+
+theorem parseStorage_invalid_len (i : Nat) (d : Bytes) (h : parseStorage i d = .error .invalid) : 20 ≤ d.length := by
+  unfold parseStorage at h
+  split at h
+  · cases h
+  · omega
+
+theorem parseSerial_ok_le (i : Nat) (d : Bytes) (n : Nat) (m : Msg) (h : parseSerial i d = .ok (n, m)) : n ≤ d.length ∧ 1 ≤ n := by
+  unfold parseSerial at h
+  split at h
+  · cases h
+  · split at h
+    · cases h
+    · split at h
+      · simp only [] at h
+        split at h
+        · cases h
+        · split at h
+          · cases h
+          · split at h
+            · cases h
+            · injection h with h; injection h with h1 h2
+              subst h1; omega
+      · cases h
+
+theorem parseSerial_invalid_len (i : Nat) (d : Bytes) (h : parseSerial i d = .error .invalid) : 8 ≤ d.length := by
+  unfold parseSerial at h
+  split at h
+  · cases h
+  · omega
+
 end Dp
